@@ -1,6 +1,7 @@
 """C14 — max_satisfying / min_satisfying (DESIGN §5 C14)."""
 import itertools
 
+from .. import minver
 from ..interp import Adt, Cell, Inconclusive, Interp, ListV, Panic, Policy, Ptr, Tok, is_some
 from ..intervals import LEVEL1, order_str, weak_orders
 from ..report import path_sig
@@ -11,66 +12,159 @@ def check(ctx, rep):
     maxn = 4 if ctx.thorough else 3
     for fn, pick in (("max_satisfying", max), ("min_satisfying", min)):
         key = "range::Range::" + fn
-        rule = "T-" + fn.upper()
-        rep.rule(rule, 119, "%s returns None iff no element satisfies, else a reference into the slice to a satisfying "
-                            "element that is %s among the satisfying ones (slices of length 0..%d)" % (
-                                fn, "maximal" if pick is max else "minimal", maxn))
         pipeline(rep, prog, key)
+        abstract_ok = level1(ctx, rep, prog, key, fn, pick, maxn)
+        structured(ctx, rep, prog, key, fn, pick, required=not abstract_ok)
+
+
+def mk_range(nalts):
+    return Adt("range::Range", 0, (ListV([Tok("S", "alt%d" % j, j, dom="set") for j in range(nalts)]),))
+
+
+def sat_override(bits):
+    """BoundSet::satisfies(alternative, version) answered by a per-(alternative, element) bit"""
+    def o_sat(interp, args, info):
+        a = interp.strip(args[0])
+        v = interp.strip(args[1])
+        if not (isinstance(a, Tok) and a.kind == "S"):
+            raise Inconclusive("BoundSet::satisfies on %r" % (a,), interp.where())
+        name = getattr(v, "name", None) if isinstance(v, Tok) else v.__dict__.get("_name") if hasattr(v, "__dict__") else None
+        if name is None and isinstance(v, Adt):
+            name = interp.version_names.get(id(v))
+        if name is None:
+            raise Inconclusive("BoundSet::satisfies on version %r" % (v,), interp.where())
+        interp.events.append(("sat", a.name, name))
+        return bits[(a.name, name)]
+    return o_sat
+
+
+def judge(rep, rule, key, cls, r, slice_cell, ranks, sat_any, pick, it, prog):
+    n = len(ranks)
+    sats = [i for i in range(n) if sat_any[i]]
+    problem = None
+    if not sats:
+        if is_some(r):
+            problem = "returned Some although no element satisfies"
+    else:
+        if not is_some(r):
+            problem = "returned None although elements %s satisfy" % sats
+        else:
+            p = r.fields[0]
+            if not (isinstance(p, Ptr) and p.cell is slice_cell and len(p.path) == 1 and p.path[0][0] == "i"):
+                problem = "result is not a reference into the slice: %r" % (p,)
+            else:
+                k = p.path[0][1]
+                best = pick(ranks[i] for i in sats)
+                if not sat_any[k]:
+                    problem = "selected element %d which does not satisfy" % k
+                elif ranks[k] != best:
+                    problem = "selected element %d which is not %s among the satisfying ones" % (
+                        k, "highest" if pick is max else "lowest")
+    if problem is None:
+        rep.ok(rule)
+    else:
+        sp = it.ret_span.get(key)
+        rep.fail(rule, "%s|%s|%s" % (key, rule, cls), problem, where=prog.span_str(sp) if sp else None)
+
+
+def level1(ctx, rep, prog, key, fn, pick, maxn):
+    """opaque version tokens (ordered by the world), ranges of 1-2 opaque alternatives with a satisfies bit per
+    (alternative, element); Range::satisfies itself is interpreted"""
+    rule = "T-" + fn.upper()
+    rep.rule(rule, 119, "%s returns None iff no element satisfies, else a reference into the slice to a satisfying element "
+                        "that is %s among the satisfying ones (slices of length 0..%d, ranges of 1-2 alternatives)" % (
+                            fn, "maximal" if pick is max else "minimal", maxn))
+    inconc = []
+    count = 0
+    for nalts in (1, 2):
         for n in range(maxn + 1):
+            if nalts == 2 and n > 3:
+                continue
             names = ["v%d" % i for i in range(n)]
             for w in weak_orders(names):
-                for sat in itertools.product((False, True), repeat=n):
-                    toks = [Tok("V", names[i], w[names[i]], dom="version", extra={"sat": sat[i]}) for i in range(n)]
+                for flat in itertools.product((False, True), repeat=n * nalts):
+                    if nalts == 2 and n == 3 and sum(flat) > 3 and not ctx.thorough:
+                        continue
+                    bits = {}
+                    for j in range(nalts):
+                        for i in range(n):
+                            bits[("alt%d" % j, names[i])] = flat[j * n + i]
+                    sat_any = [any(bits[("alt%d" % j, names[i])] for j in range(nalts)) for i in range(n)]
+                    toks = [Tok("V", names[i], w[names[i]], dom="version") for i in range(n)]
                     slice_cell = Cell(ListV(toks))
-                    rng = Ptr(Cell(Tok("O", "range")))
-
-                    def o_sat(interp, args, info):
-                        v = interp.strip(args[1])
-                        if not (isinstance(v, Tok) and v.kind == "V"):
-                            raise Inconclusive("satisfies called on %r" % (v,), interp.where())
-                        interp.events.append(("sat", v.name))
-                        return v.extra["sat"]
                     ov = dict(LEVEL1)
-                    ov["range::Range::satisfies"] = o_sat
+                    ov["range::BoundSet::satisfies"] = sat_override(bits)
                     it = Interp(prog, Policy(), overrides=ov)
-                    cls = "len=%d order:%s satisfies:%s" % (n, order_str(w), "".join("y" if s else "n" for s in sat))
+                    it.version_names = {}
+                    cls = "alternatives=%d len=%d order:%s satisfies:%s" % (
+                        nalts, n, order_str(w), "/".join("".join("y" if bits[("alt%d" % j, names[i])] else "n" for i in range(n)) for j in range(nalts)))
+                    count += 1
                     try:
-                        r = it.call_body(key, [rng, Ptr(slice_cell)])
+                        r = it.call_body(key, [Ptr(Cell(mk_range(nalts))), Ptr(slice_cell)])
                     except Inconclusive as e:
-                        rep.inconc("%s: %s" % (rule, e.reason), e.where)
+                        inconc.append((e.reason, e.where))
                         continue
                     except Panic as p:
                         rep.fail(rule, "%s|%s|%s panic" % (key, rule, cls), "panics: %s" % p)
                         continue
                     rep.path((rule, path_sig(it)))
-                    sats = [i for i in range(n) if sat[i]]
-                    problem = None
-                    if not sats:
-                        if is_some(r):
-                            problem = "returned Some although no element satisfies"
-                    else:
-                        if not is_some(r):
-                            problem = "returned None although elements %s satisfy" % sats
-                        else:
-                            p = r.fields[0]
-                            if not (isinstance(p, Ptr) and p.cell is slice_cell and len(p.path) == 1 and p.path[0][0] == "i"):
-                                problem = "result is not a reference into the slice: %r" % (p,)
-                            else:
-                                k = p.path[0][1]
-                                best = pick(toks[i].val for i in sats)
-                                if not sat[k]:
-                                    problem = "selected element %d which does not satisfy" % k
-                                elif toks[k].val != best:
-                                    problem = "selected element %d which is not %s among the satisfying ones" % (
-                                        k, "highest" if pick is max else "lowest")
-                    if problem is None:
-                        rep.ok(rule)
-                    else:
-                        sp = it.ret_span.get(key)
-                        rep.fail(rule, "%s|%s|%s" % (key, rule, cls), problem, where=prog.span_str(sp) if sp else None)
-                    if n == 3 and sat == (True, False, True):
+                    judge(rep, rule, key, cls, r, slice_cell, [w[x] for x in names], sat_any, pick, it, prog)
+                    if n == 3 and nalts == 1 and flat == (True, False, True):
                         rep.sample({"rule": rule, "class": cls, "result": "element %s" % (r.fields[0].path[0][1] if is_some(r) else None)})
-        rep.analysed_item("%s interpreted with Range::satisfies stubbed by a per-element bit, slices up to length %d" % (key, maxn))
+    rep.analysed_item("%s interpreted on %d abstract cases (opaque versions, per-(alternative, element) satisfies bits)" % (key, count))
+    if inconc:
+        rep.notes.append("%s: the opaque-version abstraction does not apply to this implementation (%s at %s); decided by the "
+                         "structured table instead" % (rule, inconc[0][0], inconc[0][1]))
+        # fail closed unless the structured table decides (see structured(): required=True)
+        rep.rules[rule]["floor"] = 0
+        return False
+    return True
+
+
+def structured(ctx, rep, prog, key, fn, pick, required):
+    """elements are structured versions (integer-token fields, numeric prerelease identifiers) from a small universe;
+    decides implementations that look inside the elements (bounded)"""
+    rule = "T-" + fn.upper() + "-STRUCT"
+    universe = [(0, 0, p, pre) for p in (0, 1) for pre in ((), (0,), (1,))]
+    maxn = 3
+    rep.rule(rule, 200, "%s on slices (length <= %d) of structured versions from a universe of %d, one alternative, every "
+                        "satisfies pattern" % (fn, maxn, len(universe)))
+    count = 0
+    stride = 1 if (ctx.thorough or required) else 5
+    for n in range(maxn + 1):
+        for elems in itertools.product(range(len(universe)), repeat=n):
+            for flat in itertools.product((False, True), repeat=n):
+                count += 1
+                if count % stride:
+                    continue
+                names = ["v%d" % i for i in range(n)]
+                vals = [minver.mk_version(prog, names[i], universe[elems[i]]) for i in range(n)]
+                bits = {("alt0", names[i]): flat[i] for i in range(n)}
+                slice_cell = Cell(ListV(vals))
+                pol = minver.MinPolicy()
+                it = Interp(prog, pol, overrides={"range::BoundSet::satisfies": sat_override(bits)})
+                it.version_names = {id(v): names[i] for i, v in enumerate(vals)}
+                cls = "len=%d elements=%s satisfies:%s" % (n, ",".join(minver.vstr(universe[e]) for e in elems), "".join("y" if b else "n" for b in flat))
+                try:
+                    r = it.call_body(key, [Ptr(Cell(mk_range(1))), Ptr(slice_cell)])
+                except Inconclusive as e:
+                    rep.inconc("%s: %s" % (rule, e.reason), e.where)
+                    return
+                except Panic as p:
+                    rep.fail(rule, "%s|%s|%s panic" % (key, rule, cls), "panics: %s" % p)
+                    continue
+                rep.path((rule, path_sig(it)))
+                # ranks by the reference order
+                import functools
+                order = sorted(range(n), key=functools.cmp_to_key(lambda a, b: minver.vcmp(universe[elems[a]], universe[elems[b]])))
+                ranks = [0] * n
+                rk = 0
+                for idx, i in enumerate(order):
+                    if idx > 0 and minver.vcmp(universe[elems[order[idx - 1]]], universe[elems[i]]) != 0:
+                        rk += 1
+                    ranks[i] = rk
+                judge(rep, rule, key, cls, r, slice_cell, ranks, list(flat), pick, it, prog)
+    rep.analysed_item("%s interpreted on structured slices (%d cases, stride %d)" % (key, count, stride))
 
 
 def pipeline(rep, prog, key):
